@@ -78,3 +78,67 @@ def hostile_array(r: random.Random) -> str:
 def empty_option_file(r: random.Random) -> str:
     """Text of an option file that is still there but holds no option() call any more."""
     return r.choice(['', '\n', '# no options left\n', "# option('old', type: 'string', value: 'x')\n", '\n\n# all gone\n\n', '  \n'])
+
+
+# ---- builtin options given for the build directory as a whole (wave 8) ---------------------------------------------------
+# `specs`: name -> {'kind', 'choices'?} (the driver passes the table of the reference model).  Only VALID values are made:
+# the prefix is an absolute path without a trailing slash and not starting with `~`, directory options are clean relative
+# paths (an absolute one inside the prefix is documented to be rewritten relative to it - not what these histories are about).
+_PATH_INNER = [' ', ' #', ';', '=', '%', '%(x)s', ':', ',', "'", '"', '[', '(', '&', '@', '+', '-', '.']
+_PATH_WORDS = ['stage', 'opt', 'x1', 'Zq', 'my app', 'ü', '日本', 'v1.2', 'rel#1']
+
+
+def prefix_value(r: random.Random, uid: int) -> str:
+    x = r.random()
+    if x < 0.16:
+        return '/usr'
+    if x < 0.26:
+        return '/usr/local'
+    if x < 0.6:
+        return f'/opt/p{uid}' + r.choice(['', '/stage', '/a/b'])
+    # hostile to the text file the command line is recorded in (no blank at either end, no line break)
+    w = r.choice(_PATH_WORDS) + r.choice(_PATH_INNER) + r.choice(_PATH_WORDS)
+    return f'/tmp/p{uid}/' + w.strip('/')
+
+
+def builtin_value(r: random.Random, name: str, spec: T.Mapping[str, T.Any], uid: int) -> str:
+    if name == 'prefix':
+        return prefix_value(r, uid)
+    if spec['kind'] == 'string':        # a directory option
+        return r.choice([f'{name[:3]}{uid}', f'share/{name[:3]}{uid}', f'{name[:3]}{uid}/sub dir', 'lib64' if name == 'libdir' else f'x{uid}'])
+    if spec['kind'] == 'combo':
+        return r.choice([c for c in spec['choices'] if c != 'custom'])
+    if spec['kind'] == 'boolean':
+        return r.choice(['true', 'false'])
+    raise AssertionError(name)
+
+
+def builtin_assignment(r: random.Random, specs: T.Mapping[str, T.Mapping[str, T.Any]], first: bool, uid0: int) -> T.Dict[str, str]:
+    """Builtin options for one command.  first: the command creates the configuration (setup on a fresh directory): two times
+    out of three it carries some, the prefix more often than anything else; other commands carry one now and then."""
+    out: T.Dict[str, str] = {}
+    if first:
+        if r.random() < 0.3:
+            return out
+        names = [n for n in specs if n != 'prefix']
+        picked = r.sample(names, r.choice([0, 1, 1, 2, 3]))
+        if r.random() < 0.7 or not picked:
+            picked.insert(r.randrange(len(picked) + 1), 'prefix')
+    else:
+        if r.random() >= 0.15:
+            return out
+        picked = [r.choice(list(specs))]
+    for i, n in enumerate(picked):
+        out[n] = builtin_value(r, n, specs[n], uid0 + i)
+    return out
+
+
+def spelling(r: random.Random, kind: str, value: str) -> str:
+    """How a builtin option is spelled on the command line: 'D' (-Dname=value), 'long=' (--name=value), 'long ' (--name value)
+    or 'flag' (--name: a boolean builtin switched on)."""
+    x = r.random()
+    if x < 0.4:
+        return 'D'
+    if kind == 'boolean':
+        return 'flag' if value == 'true' else 'D'
+    return 'long=' if x < 0.75 else 'long '
